@@ -64,6 +64,9 @@ def run(prog, tier):
                                    "posterior and evidence is computed from the damaged array (and so is the caller's own array)")
     from .gpm import routing_obligations
     so = so + routing_obligations(prog, "GpLinearInverter", "hyperparameter-routing", REL)
+    # a memoised factorisation must be keyed on values the inverter owns (decided before the matrix algebra, which cannot read
+    # a restructured solve)
+    so = so + memo_obligations(prog, "cache-key", [ci])
     obs.extend(so)
     if any(not o.ok for o in so):
         return obs, {}, {"explanation": "kept arrays are consumed as scratch / hyper-parameters mis-routed; formula rules not evaluated"}
@@ -242,7 +245,6 @@ def run(prog, tier):
     from .common import identity_memo_obligations
     obs.extend(identity_memo_obligations(prog, "result-keyed-on-values", ['inference/gp/inversion.py']))
 
-    obs.extend(memo_obligations(prog, "cache-key", [prog.cls("GpLinearInverter")]))
 
     meta = {
         "explanation": "Matrix normal form (non-commutative words with transposition, triangular-solve and solve atoms, trace and "
